@@ -76,8 +76,8 @@ class FileModel:
 
     def canon(self):
         """canonical state: everything the transition function reads and the oracle observes"""
-        return json.dumps([self.mode, self.ghost_redef_from if self.mode == DEF_RE else None, self.rdonly, self.fmt, self.dims, [[a[0], a[1], list(a[2]) if not isinstance(a[2], bytes) else a[2].hex(), a[3]] for a in self.gatts],
-                           [[v['name'], v['xtype'], v['dimids'], [[a[0], a[1], list(a[2]) if not isinstance(a[2], bytes) else a[2].hex(), a[3]] for a in v['atts']], v['nofill']] for v in self.vars],
+        return json.dumps([self.mode, self.ghost_redef_from if self.mode == DEF_RE else None, self.rdonly, self.fmt, self.dims, [[a[0], a[1], list(a[2]) if not isinstance(a[2], bytes) else a[2].hex(), a[3], (a[4] if len(a) > 4 else a[3])] for a in self.gatts],
+                           [[v['name'], v['xtype'], v['dimids'], [[a[0], a[1], list(a[2]) if not isinstance(a[2], bytes) else a[2].hex(), a[3], (a[4] if len(a) > 4 else a[3])] for a in v['atts']], v['nofill']] for v in self.vars],
                            self.fillmode, self.numrecs, sorted((v, sorted(d.items())) for v, d in self.data.items() if d),
                            [(p['kind'], p['v'], p['idx'], p.get('bput', False)) for p in self.pending], self.abuf], default=str, sort_keys=True)
 
@@ -255,7 +255,8 @@ class FileModel:
         i = self.findatt(v, name)
         if i >= 0:
             if not self.indef() and att_xsz(xt, len(vals)) > lst[i][3]: return D.NC_ENOTINDEFINE
-            lst[i] = [name, xt, vals, att_xsz(xt, len(vals))]
+            cap = max(lst[i][4] if len(lst[i]) > 4 else lst[i][3], att_xsz(xt, len(vals)))      # ghost: largest size this attribute ever had (keeps such states apart in the search)
+            lst[i] = [name, xt, vals, att_xsz(xt, len(vals)), cap]
         else:
             if not self.indef(): return D.NC_ENOTINDEFINE
             lst.append([name, xt, vals, att_xsz(xt, len(vals))])
